@@ -10,7 +10,7 @@ META = {
                 "functions)", "window / wsymm StrategyDicts and their .periodic / .symm cross links and aliases"],
   "bounds": {"quick": "sizes 1..8 (case-split; the size stays an exact symbolic-constant integer inside the formulas), blackman "
                       "alpha symbolic in [0, 1/4], cos alpha in {1, 2, 3}; overlap sums for hop=size/2 and size/4 where size allows",
-             "thorough": "sizes 1..16"},
+             "thorough": "sizes 1..16 (blackman 1..10)"},
   "outside": "IEEE exactness beyond congruence (e.g. window.blackman(4)[0] evaluates to -1.4e-17 in floats; exact value 0), "
              "non-integer alpha of the cos window, blackman alpha above 1/4 (the window leaves [0,1] there)",
   "stubs": ["cos/sin/pi inside each generated function's globals: pi is an exact 'q*pi' object, cos/sin of rational multiples of pi "
@@ -184,8 +184,9 @@ def tasks(tier, seed):
   T = []
   for name in ("hann", "hamming", "rect", "bartlett", "triangular"):
     T.append(("h_window", {"name": name, "N": N}))
-  T.append(("h_window", {"name": "blackman", "N": N if big else 8}))
-  T.append(("h_window", {"name": "blackman", "N": N, "alpha": "default"}))
+  # blackman needs the double-angle links: nlsat time grows quickly with the number of distinct angles
+  T.append(("h_window", {"name": "blackman", "N": 10 if big else 8}, {"path_s": 400} if big else {}))
+  T.append(("h_window", {"name": "blackman", "N": 10 if big else 8, "alpha": "default"}, {"path_s": 400} if big else {}))
   for a in (1, 2, 3):
     T.append(("h_window", {"name": "cos", "N": N if a == 1 else min(N, 10), "alpha": a}))
   for name in ("hann", "hamming", "rect", "bartlett"):
